@@ -11,6 +11,7 @@ import (
 	"strings"
 
 	of "github.com/contiv/libOpenflow/openflow13"
+	"github.com/contiv/libOpenflow/protocol"
 	"github.com/contiv/libOpenflow/util"
 )
 
@@ -82,6 +83,11 @@ func project(v reflect.Value, depth int) interface{} {
 	case reflect.Ptr, reflect.Interface:
 		if v.IsNil() {
 			return J{"T": "nil"}
+		}
+		if v.CanInterface() {
+			if o, ok := v.Interface().(protocol.DHCPOption); ok { // options keep tag and data unexported: observed through their accessors
+				return J{"T": "DHCPOption", "Tag": []int{int(o.OptionType())}, "Data": byteList(o.Bytes())}
+			}
 		}
 		return project(v.Elem(), depth+1)
 	case reflect.Bool:
@@ -193,6 +199,9 @@ func project(v reflect.Value, depth int) interface{} {
 }
 
 func projectMsg(m interface{}) interface{} {
+	if a, ok := m.(*rwAdapter); ok {
+		m = a.Inner()
+	}
 	var res interface{}
 	p, _ := guard(func() { res = project(reflect.ValueOf(m), 0) })
 	if p != nil {
